@@ -102,6 +102,38 @@ class Ref:
         return f'&{s.fid}:{fmt_place(s.place)}'
 
 
+class SymV:
+    """a value of an uninterpreted sort (policy ids, abstract policies / templates of the abstract-map model)"""
+    __slots__ = ('sort', 't')
+
+    def __init__(s, sort, t):
+        s.sort, s.t = sort, t
+
+    def __repr__(s):
+        return f'{s.sort}({s.t})'
+
+
+class AMap:
+    """abstract map: presence array + value array over an uninterpreted key sort; `vkind` says how values are wrapped"""
+    __slots__ = ('name', 'pres', 'val', 'vkind')
+
+    def __init__(s, name, pres, val, vkind):
+        s.name, s.pres, s.val, s.vkind = name, pres, val, vkind
+
+    def __repr__(s):
+        return f'AMap({s.name})'
+
+
+class ASet:
+    __slots__ = ('mem',)
+
+    def __init__(s, mem):
+        s.mem = mem
+
+    def __repr__(s):
+        return 'ASet'
+
+
 class StrV:
     __slots__ = ('s',)
 
@@ -225,6 +257,13 @@ class Diverge:
         s.msg = msg
 
 
+class HavocCall:
+    """result of a call nothing is known about (only when Exec.havoc_unknown is set): an arbitrary value of the destination type"""
+
+    def __init__(s, callee):
+        s.callee = callee
+
+
 class Exec:
     def __init__(self, prog, enums=None, mode='int', max_paths=4000, max_steps=400000, prune=True):
         self.prog = prog
@@ -241,6 +280,7 @@ class Exec:
         self.prune = prune
         self.stats = {'steps': 0, 'forks': 0, 'pruned': 0, 'inlined': set(), 'modelled': set(), 'stubbed': set()}
         self._prune_solver = None
+        self.havoc_unknown = False
         self.from_wrappers = set()    # target types whose derive-generated From impls are modelled as wrappers
         self.no_inline = []           # regexes of callees that must be stubbed / modelled, never inlined
         from . import models
@@ -405,6 +445,12 @@ class Exec:
             raise NotEncoded(f'field {p[2]} of {b!r}')
         if k == 'downcast':
             return self.read(st, fid, p[1])
+        if k == 'mapelem':
+            m = self.read(st, fid, p[1])
+            if not isinstance(m, AMap):
+                raise NotEncoded(f'mapelem of {m!r}')
+            v = z3.Select(m.val, p[2])
+            return ASet(v) if m.vkind == 'set' else SymV(m.vkind, v)
         if k == 'cindex':
             b = self.read(st, fid, p[1])
             if isinstance(b, Agg) and b.kind == 'array':
@@ -481,6 +527,11 @@ class Exec:
             return
         if k == 'downcast':
             self.write(st, fid, p[1], val)
+            return
+        if k == 'mapelem':
+            m = self.read(st, fid, p[1])
+            t = val.mem if isinstance(val, ASet) else val.t
+            self.write(st, fid, p[1], AMap(m.name, m.pres, z3.Store(m.val, p[2], t), m.vkind))
             return
         raise NotEncoded(f'write to place {p}')
 
@@ -753,6 +804,8 @@ class Exec:
                 return self.cast_int(v, rv[2]) if rv[2] in INT_TY else v
             if kind.startswith(('PointerCoercion', 'PtrToPtr', 'Subtype')):
                 return v
+            if kind.startswith('Transmute') and isinstance(v, (Opaque, Ref)) and ('*const' in rv[2] or '*mut' in rv[2]):
+                return Opaque(rv[2], v.what, v.id, v.over) if isinstance(v, Opaque) else v     # pointer-to-pointer transmute
             raise NotEncoded(f'cast {kind}')
         if k == 'agg':
             return self.aggregate(st, fid, rv, dest_ty)
@@ -1088,6 +1141,12 @@ class Exec:
             r = self.call_value(st, fv, args)
         else:
             r = self.dispatch(st, callee, args)
+        if isinstance(r, HavocCall):
+            dty = fr.func.locals.get(dest[1]) if dest[0] == 'local' else (dest[3] if dest[0] == 'field' else None)
+            if dty is None:
+                raise NotEncoded(f'havoc call into place {dest}')
+            r = self.fresh(apply_subst(dty, fr.subst), 'havoc', st)
+            st.log.append(Call(callee, args, r, 'HAVOC'))
         self.apply_call_result(st, r, callee, args, dest, nxt, work, outs)
 
     def apply_call_result(self, st, r, callee, args, dest, nxt, work, outs):
@@ -1199,6 +1258,9 @@ class Exec:
             if sum(1 for fr in st.stack if fr.func is func) >= 3:
                 raise NotEncoded(f'recursion into {func.name}')
             return Enter(func, args, None, subst)
+        if self.havoc_unknown:
+            self.stats['stubbed'].add('HAVOC (unknown callee returns an arbitrary value): ' + callee[:80])
+            return HavocCall(callee)
         raise NotEncoded(f'call to {callee} (no stub, model or body)')
 
     def _log(self, st, callee, args, r, tag):
